@@ -758,7 +758,7 @@ class Harness:
         out[letter[0]] = sorted(tab.values())
         return out
 
-    def judge(self, mode, seq, decs, ribs_before, want_state, before_rerender=None, rerender_from: int = 0, canon=None):
+    def judge(self, mode, seq, decs, ribs_before, want_state, before_rerender=None, rerender_from: int = 0, canon=None, carried=()):
         """The oracle for the last step of seq (decs = what every step returned, in order)."""
         w = self.w
         n = len(seq)
@@ -780,15 +780,22 @@ class Harness:
             info['state'] = core.digest([pstate, ribs])
         if before_rerender is not None:
             before_rerender()
+        mism += [m for m in carried if m[1] < rerender_from]
+        mism += self.rerender(decs, rerender_from)
+        return mism, info
+
+    def rerender(self, decs, start: int = 0) -> list:
+        """Render again what was returned at positions >= start; a difference with what it gave when decoded is a mismatch."""
+        out = []
         for i, d in enumerate(decs):
-            if d.kind == 'none' or i < rerender_from:
+            if d.kind == 'none' or i < start:
                 continue
-            r = render(w, d)
+            r = render(self.w, d)
             then = d.obs[2:5]
             if r != then:
                 fields = [OBS_FIELDS[2 + k] for k in range(3) if r[k] != then[k]]
-                mism.append(('mutated', i, fields, (d.obs[0], d.kind) + r + (d.obs[5],), d.obs))
-        return mism, info
+                out.append(('mutated', i, fields, (d.obs[0], d.kind) + r + (d.obs[5],), d.obs))
+        return out
 
     def evaluate(self, mode: str, seq, intervene=None, want_state: bool = False):
         """Run seq from a reset state and judge its last step.  Returns (mismatches, info).
@@ -827,15 +834,15 @@ class Harness:
         prefix = [tuple(x) for x in prefix]
         self.reset(mode)
         decs = [step(w, letter) for letter in prefix]
+        # objects of the prefix that the prefix itself already altered: carried to every extension that touches nothing
+        carried = self.rerender(decs)
         roots = {k: self.snap.roots[k] for k in self.hot}
         roots.update(self.rib_roots())
         cp = Snapshot(roots, digests=False)
         keys = list(roots)
         # roots an already decoded object may read when it is rendered: every hot root but the attribute-block cache (only
         # read by unpack, and rewritten by nearly every letter) and the API counter
-        scalar_keys = [k for k in self.hot if k not in ATTR_CACHE_KEYS and k not in _NOT_CANON]
-        if os.environ.get('C19_OLD_FILTER'):
-            scalar_keys = [k for k in self.hot if isinstance(cp.values[k], _SCALARS) and k not in ATTR_CACHE_KEYS]
+        read_keys = [k for k in self.hot if k not in ATTR_CACHE_KEYS and k not in _NOT_CANON]
         ribs_before = rib_snapshot(w)
         # the objects the prefix returned, to depth 7 (Update -> UpdateCollection -> AttributeCollection -> dict -> Attribute -> fields)
         # (the session objects every message points at are not part of a message)
@@ -853,9 +860,10 @@ class Harness:
             collide = self.collides(seq)
             d = step(w, letter)
             # an earlier object is rendered again when the step touched anything it is made of, or any other hot root (a
-            # rewritten class ID, a memo); always for the short sequences and the audited prefixes
-            again = audit or len(prefix) < 2 or graph.dirty(gkeys) or cp.dirty(scalar_keys)
-            mism, info = self.judge(mode, seq, decs + [d], ribs_before, True, rerender_from=0 if again else len(prefix), canon=canon)
+            # rewritten class ID, a memo); always for the short sequences.  Otherwise what the prefix had already done to it stands.
+            again = len(prefix) < 2 or graph.dirty(gkeys) or cp.dirty(read_keys)
+            mism, info = self.judge(mode, seq, decs + [d], ribs_before, True, rerender_from=0 if again else len(prefix), canon=canon,
+                                    carried=carried)
             info['collide'] = collide
             # a mismatch seen here is only a lead: classify() runs the minimal sequence again from a reset process
             if audit:
@@ -863,14 +871,7 @@ class Harness:
                 if ([m[:2] for m in mism], info) != ([m[:2] for m in mism2], info2):
                     raise core.HarnessError(f'checkpointed execution of {seq} differs from execution after a reset: '
                                             f'{[m[:3] for m in mism]} {info} vs {[m[:3] for m in mism2]} {info2}')
-                mism, info = mism2, info2
             visit(seq, mism, info)
-            if audit:
-                # evaluate() and classify() ran other sequences: run the prefix again
-                self.reset(mode)
-                decs = [step(w, x) for x in prefix]
-                cp = Snapshot(roots, digests=False)
-                graph = Snapshot({f'dec{i}': (_Holder(x.msg), 'v') for i, x in enumerate(decs)}, digests=False, depth=7, stop=stop)
 
     # -- classification -----------------------------------------------------------------------------------------
     def _has(self, mode, seq, kind, pos, intervene=None):
@@ -1125,7 +1126,8 @@ def _record(H: Harness, part: Part, mode: str, seq, mism, info) -> None:
         part.add_violation(sig, text, case)
 
 
-AUDIT_EVERY = 97  # every 97th prefix is also executed sequence by sequence from a reset process and compared
+# every 97th prefix is also executed sequence by sequence from a reset process and compared (C19_AUDIT_EVERY=1: all of them)
+AUDIT_EVERY = int(os.environ.get('C19_AUDIT_EVERY', '97'))
 
 
 def prefix_of(index: int, length: int):
